@@ -44,7 +44,7 @@ import subprocess
 import sys
 import traceback
 
-from .. import ROOT
+from .. import ROOT, dyn
 from ..par import Result, deadline_passed
 from ..width import cw
 from ..refstyle import RefStyle
@@ -415,7 +415,7 @@ def execute(case):
                      spans=[Span(a, e, STYLE_DEFS[n]) for a, e, n in case.get("spans", [])])
         else:
             t = Text(case["s"])
-        lines = t.wrap(con, case["W"], justify=case["justify"], overflow=case["overflow"],
+        lines = t.wrap(con, case["W"], justify=dyn(case["justify"]), overflow=dyn(case["overflow"]),
                        tab_size=case.get("tab", 8), no_wrap=case["no_wrap"])
         out = []
         if styled:
